@@ -49,3 +49,29 @@ pub fn response(a: &Value) -> Value {
     json!({"scenario":"c08_response","observed":{"len":txt.len(),"too_big":too_big,"unchanged":unchanged,"exact":t},"violation":violation,
            "why": if violation {"reply above the limit sent, or fitting reply replaced"} else {""}})
 }
+
+
+/// error results (with data) around the limit: a reply above max is never produced - it is replaced by -32008 with the call's id
+pub fn error_payload(_a: &Value) -> Value {
+    use jsonrpsee_types::ErrorObjectOwned;
+    let mut bad = vec![];
+    for n in [0usize, 10, 100, 1000] {
+        let data = "d".repeat(n);
+        let mk = || ResponsePayload::<()>::error(ErrorObjectOwned::owned(-32000, "boom", Some(data.clone())));
+        let full = MethodResponse::response(Id::Number(7), mk(), usize::MAX);
+        let t = full.as_json().get().len();
+        for max in [t.saturating_sub(2), t.saturating_sub(1), t, t + 1, 64] {
+            let r = MethodResponse::response(Id::Number(7), mk(), max);
+            let txt = r.as_json().get().to_string();
+            let v: Value = serde_json::from_str(&txt).unwrap();
+            let too_big = v["error"]["code"] == json!(-32008) && v["id"] == json!(7);
+            let ok = if t <= max { txt == full.as_json().get() } else { too_big };
+            if !ok {
+                bad.push(json!({"data_len": n, "exact": t, "max": max, "sent_len": txt.len(), "too_big_reply": too_big}));
+            }
+        }
+    }
+    let violation = !bad.is_empty();
+    json!({"scenario":"c08_error_payload","observed":{"deviations":bad.iter().take(4).collect::<Vec<_>>()},"violation":violation,
+           "why": if violation {"an error reply above max_response_body_size was produced (or a fitting one replaced)"} else {""}})
+}
